@@ -290,7 +290,64 @@ def run_sequence(ctx, seq: List[Tuple], cls: str) -> Optional[Tuple]:
         h.close()
 
 
+def inflight_tier(ctx):
+    """A sweep that runs while a request of the session is still being handled: the request's arrival was activity, so a
+    session whose last request arrived no longer than the limit ago is not idle and must survive the sweep."""
+    from chuk_mcp.protocol.messages.json_rpc_message import parse_message
+    for t_arrive, t_sweep, max_age in ((40.0, 60.0, 50.0), (10.0, 100.0, 95.0), (40.0, 60.0, 15.0), (0.5, 1.0, 0.75), (40.0, 60.0, 20.0)):
+        for how in ("request", "notification"):
+            h = Harness()
+            case = {"inflight": True, "arrive": t_arrive, "sweep": t_sweep, "max_age": max_age, "message": how}
+            try:
+                ph, sm = h.handler, h.sm
+
+                async def main():
+                    resp, sid = await ph.handle_message(parse_message({
+                        "jsonrpc": "2.0", "id": 1, "method": "initialize",
+                        "params": {"protocolVersion": "2025-06-18", "clientInfo": {"name": "c", "version": "1"}, "capabilities": {}}}))
+                    t0 = h.clock.now
+                    gate = asyncio.Event()
+
+                    async def slow(message, session_id):
+                        await gate.wait()
+                        mid = getattr(message, "id", None)
+                        return (ph.create_response(mid, {"slow": True}) if mid is not None else None), None
+                    ph.register_method("custom/slow" if how == "request" else "notifications/custom-slow", slow)
+                    h.clock.now = t0 + t_arrive
+                    wire = {"jsonrpc": "2.0", "method": "custom/slow" if how == "request" else "notifications/custom-slow"}
+                    if how == "request":
+                        wire["id"] = 2
+                    task = asyncio.ensure_future(ph.handle_message(parse_message(wire), session_id=sid))
+                    for _ in range(5):
+                        await asyncio.sleep(0)
+                    h.clock.now = t0 + t_sweep
+                    rec = sm.get_session(sid)
+                    seen_activity = getattr(rec, "last_activity", None)
+                    removed = sm.cleanup_expired(max_age)
+                    alive = sm.get_session(sid) is not None
+                    gate.set()
+                    await task
+                    return t0, seen_activity, removed, alive, sm.get_session(sid) is not None
+                t0, seen_activity, removed, alive, alive_after = h.loop.run_until_complete(main())
+            finally:
+                h.close()
+            ctx.count("ops_compared")
+            ctx.count("inflight_sweeps")
+            idle = t_sweep - t_arrive
+            should_survive = idle <= max_age
+            if should_survive and (removed != 0 or not alive):
+                ctx.violation("active_session_expired", f"session created at t0, {how} arrived at t0+{t_arrive} and is still being "
+                              f"handled; cleanup_expired({max_age}) at t0+{t_sweep} removed {removed} session(s) (session alive: {alive}; "
+                              f"last_activity seen {None if seen_activity is None else seen_activity - t0} after t0) - idle for {idle} only", case)
+            if not should_survive and (removed != 1 or alive):
+                ctx.violation("expired_session_kept", f"session idle for {idle} > {max_age} at the sweep: removed {removed}, alive {alive}", case)
+            ctx.record(case, shape=[removed, alive, alive_after], nontrivial=True, cls="inflight_sweep",
+                       sample={"case": case, "removed": removed, "alive": alive})
+
+
 def run(ctx):
+    if ctx.shard[0] == 0:
+        inflight_tier(ctx)
     rng = ctx.sub_rng("c19")
     # ---- id uniqueness (shard 0) -------------------------------------------
     if ctx.shard[0] == 0:
@@ -393,5 +450,8 @@ def run(ctx):
 
 
 def replay(ctx, case):
+    if case.get("inflight"):
+        inflight_tier(ctx)
+        return
     run_sequence(ctx, [tuple(o) for o in case["seq"]], "replay")
     ctx.record({"x": 1}, shape=1)
